@@ -26,6 +26,24 @@ type c15Sub struct {
 	Label  string
 	Op     *types.Operation
 	Expect string // "accept" | "reject" | "either"
+	// Omit: top-level keys left out of the uploaded JSON altogether (REST / CLI channels only): a file
+	// written by something else than the repository's own marshaller
+	Omit []string
+}
+
+// body is the uploaded file: the JSON of the operation, minus the omitted keys.
+func (s c15Sub) body() []byte {
+	bz, _ := json.Marshal(s.Op)
+	if len(s.Omit) == 0 {
+		return bz
+	}
+	var m map[string]json.RawMessage
+	_ = json.Unmarshal(bz, &m)
+	for _, k := range s.Omit {
+		delete(m, k)
+	}
+	bz, _ = json.Marshal(m)
+	return bz
 }
 
 func cloneOp(o *types.Operation) *types.Operation {
@@ -50,7 +68,7 @@ func submitAndJudge(c *Ctx, w *world.World, v *world.Node, sub c15Sub, wit map[s
 			err = v.CLI.Approve(sub.Op.ID)
 		case v.CLI != nil:
 			// the result file is handed to `dc4bc_cli read_operation_result`
-			bz, _ := json.Marshal(sub.Op)
+			bz := sub.body()
 			path := filepath.Join(v.CLI.Dir, fmt.Sprintf("submission_%d.json", v.CLI.Calls["read_operation_result"]))
 			if werr := os.WriteFile(path, bz, 0o600); werr != nil {
 				err = werr
@@ -62,8 +80,7 @@ func submitAndJudge(c *Ctx, w *world.World, v *world.Node, sub c15Sub, wit map[s
 			err = v.API.Approve(sub.Op.ID)
 		case v.API != nil:
 			// the operator uploads the file: POST /handleProcessedOperationJSON
-			bz, _ := json.Marshal(sub.Op)
-			err = v.API.Submit(bz)
+			err = v.API.Submit(sub.body())
 			c.Add("submissions_through_the_rest_api", 1)
 		case sub.Label == "approve-participation":
 			err = v.Svc.ApproveParticipation(&dto.OperationIdDTO{OperationID: sub.Op.ID})
@@ -317,11 +334,11 @@ func runC15(c *Ctx, wi int, seed uint64) {
 				// approval path: a wrong id first
 				bad := cloneOp(op)
 				bad.ID = strings.Repeat("0", 32)
-				submitAndJudge(c, w, nd, c15Sub{"approve-participation:unknown-id", bad, "reject"}, wit)
+				submitAndJudge(c, w, nd, c15Sub{Label: "approve-participation:unknown-id", Op: bad, Expect: "reject"}, wit)
 				c.Distinct("approve|unknown-id")
-				submitAndJudge(c, w, nd, c15Sub{"approve-participation", op, "accept"}, wit)
+				submitAndJudge(c, w, nd, c15Sub{Label: "approve-participation", Op: op, Expect: "accept"}, wit)
 				c.Distinct("approve|genuine")
-				again := submitAndJudge(c, w, nd, c15Sub{"approve-participation:again", op, "reject"}, wit)
+				again := submitAndJudge(c, w, nd, c15Sub{Label: "approve-participation:again", Op: op, Expect: "reject"}, wit)
 				_ = again
 				c.Distinct("approve|again")
 				return
@@ -336,13 +353,13 @@ func runC15(c *Ctx, wi int, seed uint64) {
 			mut := func(label string, f func(o *types.Operation)) {
 				o := cloneOp(res)
 				f(o)
-				subs = append(subs, c15Sub{label, o, "reject"})
+				subs = append(subs, c15Sub{Label: label, Op: o, Expect: "reject"})
 			}
 			mut("id:unknown", func(o *types.Operation) { o.ID = strings.Repeat("a", 32) })
 			mut("id:empty", func(o *types.Operation) { o.ID = "" })
 			if len(retired[nd.Idx]) > 0 {
 				old := retired[nd.Idx][r.Intn(len(retired[nd.Idx]))]
-				subs = append(subs, c15Sub{"id:retired-operation-resubmitted", cloneOp(old), "reject"})
+				subs = append(subs, c15Sub{Label: "id:retired-operation-resubmitted", Op: cloneOp(old), Expect: "reject"})
 				mut("id:retired-id-with-this-result", func(o *types.Operation) { o.ID = old.ID })
 			}
 			mut("type:changed", func(o *types.Operation) { o.Type = types.OperationType(OpDeals + "x") })
@@ -373,8 +390,14 @@ func runC15(c *Ctx, wi int, seed uint64) {
 					ores := cloneOp(oo)
 					ores.Event = res.Event
 					ores.ResultMsgs = []storage.Message{{Event: string(res.Event), Data: []byte(`{"ParticipantId":0}`), DkgRoundID: oo.DKGIdentifier}}
-					subs = append(subs, c15Sub{"foreign:result-of-another-nodes-operation", ores, "reject"})
+					subs = append(subs, c15Sub{Label: "foreign:result-of-another-nodes-operation", Op: ores, Expect: "reject"})
 					break
+				}
+			}
+			if nd.API != nil {
+				// files that leave keys out altogether (right after submissions that carried them)
+				for _, om := range [][]string{{"Event", "ResultMsgs"}, {"Event"}, {"Type"}, {"Payload"}, {"ID"}, {"DKGIdentifier"}, {"Event", "ResultMsgs", "To", "ExtraData", "CreatedAt"}} {
+					subs = append(subs, c15Sub{Label: "keys-omitted:" + strings.Join(om, "+"), Op: cloneOp(res), Expect: "reject", Omit: om})
 				}
 			}
 			for _, s := range subs {
@@ -383,11 +406,11 @@ func runC15(c *Ctx, wi int, seed uint64) {
 			}
 			// unchecked fields may change (the node cannot know better); still exactly-once
 			genuine := cloneOp(res)
-			if submitAndJudge(c, w, nd, c15Sub{"genuine", genuine, "accept"}, wit) {
+			if submitAndJudge(c, w, nd, c15Sub{Label: "genuine", Op: genuine, Expect: "accept"}, wit) {
 				retired[nd.Idx] = append(retired[nd.Idx], genuine)
 			}
 			c.Distinct(ty + "|genuine")
-			submitAndJudge(c, w, nd, c15Sub{"genuine:second-identical-submission", cloneOp(res), "reject"}, wit)
+			submitAndJudge(c, w, nd, c15Sub{Label: "genuine:second-identical-submission", Op: cloneOp(res), Expect: "reject"}, wit)
 			c.Distinct(ty + "|again")
 		}
 	}
@@ -454,7 +477,7 @@ func runC15(c *Ctx, wi int, seed uint64) {
 			if string(old.Type) != OpSigning {
 				continue
 			}
-			submitAndJudge(c, w, nd, c15Sub{"id:retired-operation-resubmitted-after-proposal-replay", cloneOp(old), "reject"}, wit)
+			submitAndJudge(c, w, nd, c15Sub{Label: "id:retired-operation-resubmitted-after-proposal-replay", Op: cloneOp(old), Expect: "reject"}, wit)
 			c.Distinct(string(old.Type) + "|retired-after-replay")
 		}
 	}
